@@ -172,6 +172,11 @@ FIXTURES = [
 ]
 
 
+# Molden / Molekel fixtures stay concrete: symbolic coefficients or coordinates make the vendor-detection cascade
+# (overlap integrals with exp of symbolic distances; the subject of C05) the dominating cost of every path
+ONLY_LINES = {"molden": r"(?!)", "molekel": r"(?!)"}     # regex that matches no line: the fixture stays concrete
+
+
 def h_parser(ctx, fmt="xyz", fn="water_element.xyz", many=False, fault="truncate", max_lines=400, twin=False):
     import iodata.api as api
     from iodata.utils import FileFormatError, LoadError
@@ -185,7 +190,17 @@ def h_parser(ctx, fmt="xyz", fn="water_element.xyz", many=False, fault="truncate
         text = "".join(lines)
     explicit = ctx.choice([True, False], label="explicit-format") if fmt not in ("json_qcschema",) else True
     with stubbed(*mods):
-        t2, table = corpus.tokenise(text, max_tokens=3000, use_model=False)
+        only = ONLY_LINES.get(fmt)
+        skipf = None
+        if only is not None:
+            import re as _re2
+            rx = _re2.compile(only)
+
+            def skipf(t, m):
+                ls = t.rfind("\n", 0, m.start()) + 1
+                le = t.find("\n", m.end())
+                return not rx.search(t[ls:le if le >= 0 else len(t)])
+        t2, table = corpus.tokenise(text, max_tokens=3000, use_model=False, skip=skipf)
         if fault == "truncate":
             cut = ctx.choice(list(range(0, len(lines) + 1)), label="cut-after-line")
             t2 = "".join(t2.splitlines(keepends=True)[:cut])
